@@ -6,6 +6,7 @@ Case = {'mode': ..., 'ops': [...]}, ops (instances are indexes into INST):
                            `eventmgr._cache` does); ok=False: a manifest `configure` fails on.
                            Queues the inotify event `created <inst>`.
   ['fs_delete', i]         cache/<inst> unlinked; queues `deleted <inst>`
+  ['cfg_break', i]         the node changes: from now on `configure` raises ContainerSetupError for cache/<inst> (file untouched)
   ['ready', 0|1]           cache/.ready removed / (re)written; queues deleted / created|modified
   ['deliver', n]           the manager's DirWatcher hands the next n queued events (FIFO, as inotify
                            delivers them) to `_on_created/_on_modified/_on_deleted`
@@ -25,6 +26,7 @@ tables with targets.
 import errno
 import io
 import os
+import random
 import shutil
 import sys
 import tempfile
@@ -204,6 +206,7 @@ def _gen_wild(rng, edge):
     if rng.random() < 0.85:
         ops += [['ready', 1], ['deliver', 99]]
     eager = rng.random() < 0.5          # mostly deliver promptly
+    r2 = random.Random(repr(rng.getstate()[1][:4]))     # side stream
     for _ in range(rng.randint(8, 34)):
         r = rng.random()
         if r < 0.24:
@@ -224,6 +227,9 @@ def _gen_wild(rng, edge):
                     ops.append(['deliver', 99])
         elif r < 0.75:
             ops.append(['reboot'])
+            if r2.random() < 0.4:
+                # the node comes back changed: a cached instance can no longer be configured
+                ops.append(['cfg_break', r2.randrange(n)])
             if rng.random() < 0.8:
                 ops.append(['ready', 1])
                 if rng.random() < 0.7:
@@ -240,6 +246,8 @@ def _gen_wild(rng, edge):
         elif edge or r < 0.97:
             ops.append(['ev', rng.choice(['created', 'modified', 'deleted']),
                         rng.choice(IGNORED_NAMES + [rng.randrange(n)])])
+        if r2.random() < 0.03:
+            ops.append(['cfg_break', r2.randrange(n)])
         if eager and ops and ops[-1][0] in ('fs_create', 'fs_delete', 'ready') and rng.random() < 0.8:
             ops.append(['deliver', 99])
     ops.append(['deliver', 99])
@@ -412,6 +420,7 @@ class _World:
         self.mgr = None
         self.env = None
         self.first_hit = False
+        self.broken = set()         # instances whose (unchanged) cache file `configure` now fails on
         self.stats = {'sync': 0, 'sync2': 0, 'terminate': 0, 'configure': 0, 'flip': 0, 'hits': 0,
                       'handlers': 0}
 
@@ -423,6 +432,8 @@ class _World:
                 content = f.read()
         except IOError:
             return None
+        if os.path.basename(event) in self.broken:
+            raise exc.ContainerSetupError('feature no longer available on this node')
         if 'ok: false' in content:
             if 'setup' in content:
                 raise exc.ContainerSetupError('bad manifest')
@@ -600,7 +611,7 @@ class _World:
                 continue
             p = os.path.join(env.cache_dir, n)
             with io.open(p) as f:
-                ok = 'ok: false' not in f.read()
+                ok = 'ok: false' not in f.read() and n not in self.broken
             s['cache'][n] = (self.orig_unique_name(p), ok)
         for n in sorted(os.listdir(env.apps_dir)):
             s['apps'][n] = tuple(m for m in MARKERS if os.path.exists(os.path.join(env.apps_dir, n, 'data', m)))
@@ -669,6 +680,7 @@ class _World:
             raise fw.InfraError('file system does not give fresh unique ids')
         g = len(self.gens)
         self.gens[cname] = g
+        self.broken.discard(name)       # a new file: a new manifest
         self.queue.append(('created', name))
         self.prims = []
         post = self.snap()
@@ -680,9 +692,16 @@ class _World:
                                detail='%r -> %r -> %r' % (name, cname, self.orig_app_name(cname))))
         self.emit('fscreate %d %d %d' % (i, g, 1 if ok else 0), post, hits)
 
+    def cfg_break(self, i):
+        name = INST[i]
+        if os.path.exists(os.path.join(self.env.cache_dir, name)):
+            self.broken.add(name)
+        self.emit('cfgbreak %d' % i, self.snap(), [])
+
     def fs_delete(self, i):
         name = INST[i]
         path = os.path.join(self.env.cache_dir, name)
+        self.broken.discard(name)
         if os.path.exists(path):
             os.unlink(path)
             self.queue.append(('deleted', name))
@@ -832,6 +851,8 @@ def run_impl(case, pid):
                     w.fs_create(int(op[1]) % len(INST), bool(op[2]))
                 elif k == 'fs_delete':
                     w.fs_delete(int(op[1]) % len(INST))
+                elif k == 'cfg_break':
+                    w.cfg_break(int(op[1]) % len(INST))
                 elif k == 'ready':
                     w.ready(bool(op[1]))
                 elif k == 'deliver':
